@@ -254,6 +254,8 @@ def run_check(pid, tier, seed, only, jobs, write_evidence=True):
         return 3
     names = [n for n in obs if (not only or only in n)]
     budget = getattr(mod, "WALL_S", {}).get(tier, 600 if tier == "quick" else 1800)
+    if os.environ.get("VERIF_WALL_S"):
+        budget = float(os.environ["VERIF_WALL_S"])      # (development aid: a shorter exploration of the depth obligations)
     deadline = t0 + budget
     qtimeout = getattr(mod, "QTIMEOUT_MS", {}).get(tier, 5000 if tier == "quick" else 30000)
     import random
